@@ -166,6 +166,16 @@ def correspond(ctx):
                 continue
             ctx.count("type-" + kind); ctx.count("series-%s" % ("wide" if len(spec["series"]) > 26 else "narrow"))
             check(ctx, chart, spec, ct, "add", lines, impl, metas)
+            twin = None
+            if rng.random() < 0.3 and spec["series"]:
+                # a second chart from the SAME data (equal workbook bytes when both are written within one second): what is
+                # done to the first chart later must not reach the second one's workbook
+                import copy as _copy
+                try:
+                    twin = (slide.shapes.add_chart(ct, 0, 0, 100, 100, cd).chart, _copy.deepcopy(spec))
+                    ctx.count("twin-chart-from-equal-data")
+                except Exception:  # noqa
+                    twin = None
             if kind != "cat" and spec["series"] and rng.random() < 0.5:
                 # the SAME chart-data object, grown, then used again
                 j = rng.randrange(len(spec["series"]))
@@ -193,6 +203,16 @@ def correspond(ctx):
                     check(ctx, chart, spec2, ct, "replace", lines, impl, metas)
                 except Exception as e:  # noqa
                     ctx.count("replace-raised(see C07)")
+            if twin is not None:
+                check(ctx, twin[0], twin[1], ct, "twin-after-sibling-changed", lines, impl, metas)
+                import io as _io
+                if rng.random() < 0.3:
+                    b = _io.BytesIO(); prs.save(b)
+                    prs2 = Presentation(_io.BytesIO(b.getvalue()))
+                    sl2 = prs2.slides[0]
+                    charts2 = [sh.chart for sh in sl2.shapes if getattr(sh, "has_chart", False)]
+                    k = [sh.chart for sh in slide.shapes if getattr(sh, "has_chart", False)].index(twin[0]) if True else 0
+                    check(ctx, charts2[k], twin[1], ct, "twin-after-sibling-changed+reopen", lines, impl, metas)
     for n in [1, 2, 25, 26, 27, 51, 52, 53, 701, 702, 703, 704, 16384, 18278, 18279] + [rng.randint(1, 16384) for _ in range(40)]:
         from pptx.chart.xlsx import CategoryWorkbookWriter
         try:
